@@ -690,6 +690,52 @@ def runSeqRef (esc : Bytes → Bytes) (base : Scenario) : List Fam → List Step
     let r := collectFrom esc { base with scopes := scopes } fams
     r.1 :: runSeqRef esc base r.2 rest
 
+/-! ### concurrent scrapes: one label per locked region of Collect
+
+Collect touches the collector's mutable members only inside three critical sections of `c.mu` (harness/extract/C18/
+collector.txt: the func-literal at the top of Collect, collector.scopeInfo, collector.validateMetrics); everything else
+works on data private to the call (the pooled buffer, locals) and on fields that never change after New. Concurrent
+scrapes (and instrument creation, which only changes what reader.Collect delivers) are therefore interleavings of these
+atomic actions on the shared cache state. -/
+
+inductive Act
+  | init                                             -- the func-literal: targetInfo / disableTargetInfo / resourceKeyVals
+  | scopeInfo (s : Scope)                            -- collector.scopeInfo(scope)
+  | validate (n d : Bytes) (t : MType)               -- collector.validateMetrics(name, description, type)
+
+/-- what a locked region hands back to its Collect call -/
+inductive Ret
+  | top (sent : List Emitted) (resKV : List KV)      -- `if !disableTargetInfo { ch <- targetInfo }`, resourceKeyVals
+  | info (m : Option Emitted)
+  | val (drop : Bool) (help : Bytes)
+
+def actS (esc : Bytes → Bytes) (sc : Scenario) (st : CState) : Act → CState × Ret
+  | .init =>
+    let st2 := initRes esc sc (initTarget esc sc st)
+    (st2, .top (if !st2.disableTarget then st2.target.toList else []) st2.resKV)
+  | .scopeInfo s => let r := scopeInfoCached esc sc.cfg.legacy st s; (r.1, .info r.2)
+  | .validate n d t => let r := validate st.fams n d t; ({ st with fams := r.1 }, .val r.2.1 r.2.2)
+
+/-- any schedule: the locked regions of any number of Collect calls in the order in which they took the lock -/
+def runActs (esc : Bytes → Bytes) (sc : Scenario) : CState → List Act → List Ret × CState
+  | st, [] => ([], st)
+  | st, a :: rest => let r := actS esc sc st a; let t := runActs esc sc r.1 rest; (r.2 :: t.1, t.2)
+
+/-- the schedule-independent reading: `init` and `scopeInfo` answer with functions of the exporter's constants / of the
+scope; only validateMetrics depends on history — on the earlier validateMetrics calls, in lock order -/
+def refRets (esc : Bytes → Bytes) (sc : Scenario) : List Fam → List Act → List Ret × List Fam
+  | fams, [] => ([], fams)
+  | fams, .init :: rest =>
+    let t := refRets esc sc fams rest
+    (.top (if !sc.noTarget && metricOK sc.cfg.legacy (b "target_info") (getAttrs esc sc.cfg.legacy sc.res)
+        then [targetInfoMetric esc sc] else [])
+      (if sc.resConst then getAttrs esc sc.cfg.legacy (constRes sc) else []) :: t.1, t.2)
+  | fams, .scopeInfo s :: rest => let t := refRets esc sc fams rest; (.info (scopeInfoMetric esc sc.cfg.legacy s) :: t.1, t.2)
+  | fams, .validate n d ty :: rest =>
+    let r := validate fams n d ty
+    let t := refRets esc sc r.1 rest
+    (.val r.2.1 r.2.2 :: t.1, t.2)
+
 structure Series where
   labels : List KV
   payload : OutPayload
